@@ -11,20 +11,23 @@ import (
 )
 
 type seedDoc struct {
-	name string
-	text string
-	nd   bool
+	name  string
+	text  string
+	nd    bool
+	deser bool // the tape under edit is obtained by Serialize + Deserialize of the parsed one
 }
 
 var editSeeds = []seedDoc{
-	{"mixed-object", `{"a":1,"b":"x","c":[1,2,3],"d":{"e":true,"f":null}}`, false},
-	{"mixed-array", `[1,"a",[2,3],{"x":1},true,null]`, false},
-	{"nested-containers", `{"k":[{"a":1.5,"b":"s"},[],{}],"u":18446744073709551615,"s":"\u00e9"}`, false},
-	{"deep-arrays", `[[[1,2],[3]],[[4]]]`, false},
-	{"dup-keys", `{"a":"first","a":"dup","":0}`, false},
-	{"ndjson", "{\"a\":1}\n[true,false]\n{\"b\":{\"c\":\"d\"}}", true},
-	{"scalars", `[-1,2.5e10,"str",false,123456789012345678901234567890,18446744073709551615]`, false},
-	{"chain", `{"only":{"deep":{"deeper":[null,{"x":"y"}]}}}`, false},
+	{"mixed-object", `{"a":1,"b":"x","c":[1,2,3],"d":{"e":true,"f":null}}`, false, false},
+	{"mixed-array", `[1,"a",[2,3],{"x":1},true,null]`, false, false},
+	{"nested-containers", `{"k":[{"a":1.5,"b":"s"},[],{}],"u":18446744073709551615,"s":"\u00e9"}`, false, false},
+	{"deep-arrays", `[[[1,2],[3]],[[4]]]`, false, false},
+	{"dup-keys", `{"a":"first","a":"dup","":0}`, false, false},
+	{"ndjson", "{\"a\":1}\n[true,false]\n{\"b\":{\"c\":\"d\"}}", true, false},
+	{"scalars", `[-1,2.5e10,"str",false,123456789012345678901234567890,18446744073709551615]`, false, false},
+	{"chain", `{"only":{"deep":{"deeper":[null,{"x":"y"}]}}}`, false, false},
+	{"deserialized-mixed", `{"a":1,"b":"x","c":[1,2,3],"d":{"e":true,"f":null}}`, false, true},
+	{"deserialized-numbers-only", `[1,2.5,[3],{"n":4}]`, false, true},
 }
 
 type histNode struct {
@@ -149,6 +152,14 @@ func exploreHistories(w *W, hp *histParams) {
 				w.Violate(Violation{Fingerprint: hp.prop + "/seed-rejected", What: fmt.Sprint("seed document rejected: ", err, p), Case: text, Config: c.String()})
 				continue
 			}
+			if seed.deser {
+				rt, what := roundTrip(root, simdjson.CompressNone, simdjson.CompressDefault)
+				if what != "" {
+					w.Violate(Violation{Fingerprint: hp.prop + "/seed-roundtrip", What: what, Case: text, Config: c.String()})
+					continue
+				}
+				root = rt
+			}
 			start := &histNode{pj: root, docs: docs}
 			if w.Shard == 0 {
 				w.res.States++
@@ -236,6 +247,13 @@ func replayHistory(v *Violation, hp *histParams) string {
 	pj, perr, p := doParse(c, text, nil, seed.nd)
 	if perr != nil || p != "" {
 		return fmt.Sprint("FAIL seed rejected ", perr, p)
+	}
+	if seed.deser {
+		rt, what := roundTrip(pj, simdjson.CompressNone, simdjson.CompressDefault)
+		if what != "" {
+			return "FAIL " + what
+		}
+		pj = rt
 	}
 	st := &histNode{pj: pj, docs: docs}
 	if what, api := hp.check(pj, docs); what != "" {
